@@ -136,9 +136,10 @@ func raceBatch(t vkit.TB, c RaceCase, cleanup time.Duration, off, n int) bool {
 			var sawBanned bool
 			var qb time.Time
 			query := func() { qb = time.Now(); sawBanned, _ = p.IsBanned(ip) }
-			reban := func() { p.RecordFailure(ip); p.RecordFailure(ip) }
+			stagger := time.Duration(idx%8) * 250 * time.Nanosecond // vary which side reaches the lock first
+			reban := func() { spinFor(stagger); p.RecordFailure(ip); p.RecordFailure(ip) }
 			if c.Mode == "ban/par-manual-ban" {
-				reban = func() { p.BanIP(ip, time.Hour, "manual") }
+				reban = func() { spinFor(stagger); p.BanIP(ip, time.Hour, "manual") }
 			}
 			if c.Mode == "ban/seq-requery" {
 				query()
@@ -188,7 +189,8 @@ func raceBatch(t vkit.TB, c RaceCase, cleanup time.Duration, off, n int) bool {
 			spinFor(20 * time.Microsecond)
 			var sawAllowed bool
 			query := func() { sawAllowed, _ = ipm.IsAllowed(ip) }
-			readd := func() { ipm.AddToBlacklist(ip, time.Hour, "fresh", "c18") }
+			stagger := time.Duration(idx%8) * 250 * time.Nanosecond
+			readd := func() { spinFor(stagger); ipm.AddToBlacklist(ip, time.Hour, "fresh", "c18") }
 			if c.Mode == "list/seq-readd" {
 				query()
 				readd()
